@@ -66,6 +66,8 @@ pub struct M<'tcx> {
     pub conds: Vec<(Tid, i128)>,
     pub events: Vec<Event>,
     pub depth: usize,
+    /// (function, basic block) of every live frame: reported with `unsupported` so the construct is diagnosable
+    pub loc_stack: Vec<(rustc_span::def_id::DefId, usize)>,
     pub fmt_ty: Option<Ty<'tcx>>,
     pub visited: std::collections::BTreeSet<String>,
     /// types of values parked in allocations by the models (e.g. the arbitrary iterator inside a modelled zip)
@@ -119,7 +121,7 @@ pub fn peel_refs<'tcx>(mut t: Ty<'tcx>) -> Ty<'tcx> {
 
 impl<'tcx> M<'tcx> {
     pub fn new(tcx: TyCtxt<'tcx>, cfg: Config) -> Self {
-        M { tcx, terms: Terms::default(), allocs: vec![], alloc_names: vec![], steps: 0, cfg, script: vec![], pos: 0, conds: vec![], events: vec![], depth: 0, fmt_ty: None, visited: Default::default(), alloc_tys: Default::default() }
+        M { tcx, terms: Terms::default(), allocs: vec![], alloc_names: vec![], steps: 0, cfg, script: vec![], pos: 0, conds: vec![], events: vec![], depth: 0, loc_stack: vec![], fmt_ty: None, visited: Default::default(), alloc_tys: Default::default() }
     }
 
     pub fn reset_path(&mut self) {
@@ -130,6 +132,7 @@ impl<'tcx> M<'tcx> {
         self.conds.clear();
         self.events.clear();
         self.depth = 0;
+        self.loc_stack.clear();
         self.alloc_tys.clear();
     }
 
@@ -503,6 +506,14 @@ impl<'tcx> M<'tcx> {
                 ProjectionElem::Field(fi, _) => {
                     if is_transparent(tcx, base_ty) || matches!(base_ty.kind(), ty::Adt(a, _) if a.is_union()) {
                         // flattened wrapper
+                    } else if let (Some(sl), ty::Adt(a, args), 0) = (cur.sl, base_ty.kind(), cur.off) {
+                        // pointer to a struct with an unsized slice tail (coerced from the array-tailed struct): the metadata goes to the tail field
+                        let nf = a.non_enum_variant().fields.len();
+                        let last_is_slice = a.non_enum_variant().fields.iter().last().map_or(false, |fd| matches!(fd.ty(tcx, args).kind(), ty::Slice(_)));
+                        let mut path = cur.path.clone();
+                        path.push(PE::F(fi.as_u32()));
+                        let keep = fi.as_usize() + 1 == nf && last_is_slice;
+                        cur = Ptr { alloc: cur.alloc, path, off: 0, sl: if keep { Some(sl) } else { None } };
                     } else {
                         let n = leaf_count(tcx, base_ty);
                         let mut path = self.resolve(&cur, n)?;
@@ -638,6 +649,16 @@ impl<'tcx> M<'tcx> {
                 }
             }
         }
+        // `const { MaybeUninit::uninit() }` (array::from_fn / map): an uninitialised slot
+        if let ty::Adt(a, _) = t.kind() {
+            if tcx.def_path_str(a.did()).ends_with("MaybeUninit") {
+                if let Ok(val) = c.eval(tcx, tyenv(), rustc_span::DUMMY_SP) {
+                    if val.all_bytes_uninit(tcx) {
+                        return Ok(mk_uninit(tcx, t));
+                    }
+                }
+            }
+        }
         // structured constants (arrays / structs of scalars)
         if let Ok(val) = c.eval(tcx, tyenv(), rustc_span::DUMMY_SP) {
             if let Some(v) = self.destructure(val, t)? {
@@ -744,7 +765,8 @@ impl<'tcx> M<'tcx> {
                 let t = self.mono(f, c.const_.ty());
                 Ok((v, t))
             }
-            _ => unsup("operand kind"),
+            // ub_checks / contract_checks / overflow_checks of core's own bodies: off (as in a release build of core)
+            Operand::RuntimeChecks(_) => Ok((V::Int(0), self.tcx.types.bool)),
         }
     }
 
@@ -843,6 +865,18 @@ impl<'tcx> M<'tcx> {
                         }
                     }
                     V::T(x) => Ok(V::T(self.terms.op("discr", vec![x]))),
+                    V::Uninit => {
+                        // an enum with a single inhabited variant (Option<Infallible>): optimised MIR reads its discriminant without ever writing it
+                        if let (ty::Adt(a, _), Ok(l)) = (t.kind(), tcx.layout_of(tyenv().as_query_input(t))) {
+                            if let rustc_abi::Variants::Single { index } = l.variants {
+                                if a.is_enum() {
+                                    let d = a.discriminant_for_variant(tcx, index);
+                                    return Ok(V::Int(int_norm(tcx, t.discriminant_ty(tcx), d.val as i128)));
+                                }
+                            }
+                        }
+                        unsup("discriminant of an uninitialised value")
+                    }
                     o => unsup(format!("discriminant of {:?}", o)),
                 }
             }
@@ -933,16 +967,49 @@ impl<'tcx> M<'tcx> {
                                 Ok(V::Ptr(Ptr { alloc: p.alloc, path: p.path, off: p.off, sl: Some((stride, arr_len(tcx, *n))) }))
                             }
                             (_, ty::Dynamic(..), V::Ptr(p)) => Ok(V::Dyn(p, fi)),
+                            (ty::Adt(a, aargs), ty::Adt(b, _), V::Ptr(p)) if a.did() == b.did() && a.is_struct() => {
+                                // struct with an array tail -> the same struct with a slice tail
+                                let Some(last) = a.non_enum_variant().fields.iter().last() else { return unsup("unsize of a fieldless struct") };
+                                match last.ty(tcx, aargs).kind() {
+                                    ty::Array(e, n) => Ok(V::Ptr(Ptr { alloc: p.alloc, path: p.path, off: p.off, sl: Some((leaf_count(tcx, *e), arr_len(tcx, *n))) })),
+                                    _ => unsup(format!("unsize {} -> {}", from, to)),
+                                }
+                            }
                             _ => unsup(format!("unsize {} -> {}", from, to)),
                         }
                     }
-                    PC::ReifyFnPointer(_) | PC::UnsafeFnPointer | PC::ClosureFnPointer(_) | PC::MutToConstPointer | PC::ArrayToPointer => Ok(v),
+                    PC::ClosureFnPointer(_) => match from.kind() {
+                        // a capture-less closure used as a fn pointer: callable by its body
+                        ty::Closure(cd, cargs) => Ok(V::FnDef(*cd, cargs)),
+                        _ => Ok(v),
+                    },
+                    PC::ReifyFnPointer(_) | PC::UnsafeFnPointer | PC::MutToConstPointer | PC::ArrayToPointer => Ok(v),
                     _ => unsup("pointer coercion"),
                 }
             }
             CastKind::Transmute | CastKind::Subtype => {
                 if matches!(v, V::Ptr(_)) {
                     return Ok(v);
+                }
+                // Option<NonZero<_>> <-> integer (how core builds NonZero::new): the niche is zero
+                if let (V::Int(k), Some(pt)) = (&v, niche_zero_option(tcx, to)) {
+                    if from.is_integral() {
+                        return Ok(if *k == 0 { V::Enum(0, vec![]) } else { V::Enum(1, vec![reshape(tcx, pt, &mut vec![V::Int(*k)].into_iter())]) });
+                    }
+                }
+                if let (V::Enum(var, fs), Some(_)) = (&v, niche_zero_option(tcx, from)) {
+                    if to.is_integral() {
+                        if *var == 0 {
+                            return Ok(V::Int(0));
+                        }
+                        let mut l = vec![];
+                        for x in fs {
+                            flatten(x, &mut l);
+                        }
+                        if l.len() == 1 {
+                            return Ok(l.pop().unwrap());
+                        }
+                    }
                 }
                 let mut l = vec![];
                 flatten(&v, &mut l);
@@ -1107,4 +1174,19 @@ pub fn inst_kind_is_item(i: &Instance<'_>) -> bool {
 #[allow(dead_code)]
 pub fn did_of(i: &Instance<'_>) -> DefId {
     i.def_id()
+}
+
+/// `Option<P>` whose `None` is the all-zero bit pattern of an integer-like payload (`NonZero<_>`): returns P
+pub fn niche_zero_option<'tcx>(tcx: TyCtxt<'tcx>, t: Ty<'tcx>) -> Option<Ty<'tcx>> {
+    if let ty::Adt(a, args) = t.kind() {
+        if a.is_enum() && tcx.is_diagnostic_item(rustc_span::sym::Option, a.did()) {
+            let p = args.types().next()?;
+            if let ty::Adt(pa, _) = p.kind() {
+                if tcx.def_path_str(pa.did()).contains("NonZero") {
+                    return Some(p);
+                }
+            }
+        }
+    }
+    None
 }
